@@ -4,9 +4,11 @@
 package streamkit
 
 import (
+	"context"
 	"crypto/sha256"
 	"encoding/hex"
 	"errors"
+	"fmt"
 	"io"
 
 	"verifharness/internal/drv"
@@ -29,6 +31,27 @@ type Script struct {
 	WithData bool
 	Conds    []string
 	CloseErr bool
+	// ErrKind selects WHICH error a Term "err" stream returns ("" / "custom" = ErrScript):
+	// "ueof" io.ErrUnexpectedEOF, "ueofwrap" an error wrapping it, "eofwrap" an error
+	// wrapping io.EOF, "closedpipe" io.ErrClosedPipe, "canceled" context.Canceled.
+	ErrKind string
+}
+
+// KindErr is the error of a given identity (Codecs!ErrKinds).
+func KindErr(kind string) error {
+	switch kind {
+	case "ueof":
+		return io.ErrUnexpectedEOF
+	case "ueofwrap":
+		return fmt.Errorf("streamkit: body truncated: %w", io.ErrUnexpectedEOF)
+	case "eofwrap":
+		return fmt.Errorf("streamkit: transport: %w", io.EOF)
+	case "closedpipe":
+		return io.ErrClosedPipe
+	case "canceled":
+		return context.Canceled
+	}
+	return ErrScript
 }
 
 // ErrScript is the error a script with Term "err" returns.
@@ -110,7 +133,7 @@ func (s Script) cond(i int) error {
 
 func (s Script) termErr() error {
 	if s.Term == "err" {
-		return ErrScript
+		return KindErr(s.ErrKind)
 	}
 	return io.EOF
 }
